@@ -160,7 +160,7 @@ ITER_ADAPTERS = ("peekable", "enumerate", "iter", "into_iter", "by_ref", "iter_m
 ITER_DRAW = ("peek", "next", "peek_mut")
 
 
-_LEGACY = False   # set only by the key-migration script: previous key scheme
+_SCHEME = 3      # key scheme version; lowered only by the key-migration script (2 = before if-diverge / !! / bool::then guards, 1 = before each(..) and plain bool guards)
 
 
 def iter_source(e, seen_iter=False):
@@ -210,7 +210,7 @@ def short_descr(c, e, depth=0):
             kind, init = d
             if kind == "mut":
                 return "%s<%s>" % (_nm(e), "; ".join("%s %s" % (op, short_descr(c, r, depth + 3)) for op, r in init))
-            if kind in ("each", "part") and not _LEGACY:
+            if kind in ("each", "part") and _SCHEME >= 2:
                 src = iter_source(init, kind == "each")
                 if src is not None:
                     return "each(%s)" % short_descr(c, src, depth + 1)
@@ -244,6 +244,8 @@ def short_descr(c, e, depth=0):
         return short_descr(c, e["tail"], depth)
     if k == "block" and "tail" in e:
         return "{..; %s}" % short_descr(c, e["tail"], depth + 1)
+    if k == "if" and _SCHEME >= 3 and "else" in e and diverges(e["else"]) and not diverges(e["then"]):
+        return short_descr(c, e["then"], depth)
     if k == "if":
         cond = e["cond"]
         cd = ("%s~%s" % (short_descr(c, cond["init"], depth + 1), pat_descr(cond["pat"]))) if cond["k"] == "let_cond" else short_descr(c, cond, depth + 1)
@@ -314,10 +316,31 @@ def diverges(e):
     return False
 
 
+def _neg(g):
+    """Guard for the negation of g; `!(!(x))` is x."""
+    if _SCHEME >= 3 and g.startswith("!(!") and g.endswith(")"):
+        inner = g[2:-1]          # "!x.."
+        core = inner[1:]
+        if core.startswith("(") and core.endswith(")"):
+            core = core[1:-1]
+        return core
+    return g
+
+
 def walk_guarded(c, e, guards=()):
     """Pre-order walk yielding (node, guards) where guards are the dominating branch conditions (line-free)."""
     yield e, guards
     k = e["k"]
+    if _SCHEME >= 3 and k == "mcall" and e.get("callee") and strip_generics(e["callee"]["path"]) == "core::bool::<impl bool>::then" \
+            and e["args"] and e["args"][0]["k"] == "closure":
+        # `cond.then(|| body)`: body runs under cond
+        for x in walk_guarded(c, e["recv"], guards):
+            yield x
+        g = short_descr(c, e["recv"])
+        yield e["args"][0], guards
+        for x in walk_guarded(c, e["args"][0]["body"], guards + (g,)):
+            yield x
+        return
     if k == "block" and _EARLY and e.get("stmts"):
         g = guards
         per = []
@@ -325,7 +348,7 @@ def walk_guarded(c, e, guards=()):
             per.append((st, g))
             if st["k"] == "expr" and st["e"]["k"] == "if" and diverges(st["e"]["then"]):
                 if "else" not in st["e"]:
-                    g = g + ("!(" + _cond_descr(c, st["e"]["cond"]) + ")",)
+                    g = g + (_neg("!(" + _cond_descr(c, st["e"]["cond"]) + ")"),)
             elif st["k"] == "expr" and st["e"]["k"] == "if" and "else" in st["e"] and diverges(st["e"]["else"]) and not diverges(st["e"]["then"]):
                 g = g + (_cond_descr(c, st["e"]["cond"]),)
         if "tail" in e:   # same order as hir.children: tail first
@@ -341,7 +364,7 @@ def walk_guarded(c, e, guards=()):
         cond = e["cond"]
         for x in walk_guarded(c, cond, guards):
             yield x
-        if cond["k"] == "let_cond" and not _LEGACY and pat_descr(cond["pat"]) == "Some" and is_draw(cond["init"]):
+        if cond["k"] == "let_cond" and _SCHEME >= 2 and pat_descr(cond["pat"]) == "Some" and is_draw(cond["init"]):
             # `while let Some(x) = it.peek()/next()`: "the iterator had an element" is what each(..) already says
             for x in walk_guarded(c, e["then"], guards):
                 yield x
@@ -358,7 +381,7 @@ def walk_guarded(c, e, guards=()):
         for x in walk_guarded(c, e["then"], guards + (g,)):
             yield x
         if "else" in e:
-            for x in walk_guarded(c, e["else"], guards + ("!(" + g + ")",)):
+            for x in walk_guarded(c, e["else"], guards + (_neg("!(" + g + ")"),)):
                 yield x
         return
     if k == "match" and e.get("src") == "normal":
@@ -368,11 +391,11 @@ def walk_guarded(c, e, guards=()):
         for arm in e["arms"]:
             pd = pat_descr(arm["pat"])
             # `match b { true => .., false => .. }` guards like `if b {..} else {..}`
-            if not _LEGACY and pd == "Some" and is_draw(e["scrut"]):
+            if _SCHEME >= 2 and pd == "Some" and is_draw(e["scrut"]):
                 for x in walk_guarded(c, arm["body"], guards):
                     yield x
                 continue
-            g = "%s~%s" % (sd, pd) if _LEGACY else sd if pd in ("True", "true") else ("!(" + sd + ")" if pd in ("False", "false") else "%s~%s" % (sd, pd))
+            g = "%s~%s" % (sd, pd) if _SCHEME < 2 else sd if pd in ("True", "true") else ("!(" + sd + ")" if pd in ("False", "false") else "%s~%s" % (sd, pd))
             if "guard" in arm:
                 for x in walk_guarded(c, arm["guard"], guards + (g,)):
                     yield x
